@@ -38,6 +38,12 @@ def nondecreasing : List Nat → Bool
   | a :: b :: rest => a ≤ b && nondecreasing (b :: rest)
   | _ => true
 
+/-- Rows of a CSR matrix: consecutive slices of the entry list of lengths
+`indptr[v+1] - indptr[v]` (linear in the number of entries). -/
+def splitRows (ents : List (Nat × Int)) : List Nat → List (List (Nat × Int))
+  | a :: b :: rest => ents.take (b - a) :: splitRows (ents.drop (b - a)) (b :: rest)
+  | _ => []
+
 structure Inst where
   n : Nat
   threads : Nat
@@ -60,13 +66,11 @@ def parseInst (n threads imb : String) (secs : List (List String)) (maxN : Nat) 
   if indptr.length != n + 1 || indptr.headD 1 != 0 || indptr.getLastD 0 != indices.length
       || indices.length != data.length then none
   if !nondecreasing indptr then none
-  let ents := indices.zip data
-  let g : Graph := (List.range n).map fun v =>
-    (ents.drop (indptr.getD v 0)).take (indptr.getD (v + 1) 0 - indptr.getD v 0)
+  let g : Graph := splitRows (indices.zip data) indptr
   if g.any (fun row => row.any (fun e => e.1 ≥ n) || !strictlyIncreasing (row.map (·.1))) then none
   if data.any (fun x => x.natAbs > 1000) then none
-  if w.length != n || w.any (fun x => x < 0 || x > 1000) then none
-  if parts.length != n || parts.any (fun p => p ≥ 8) then none
+  if w.length != n || w.any (fun x => x < 0 || x > 2199023255552) then none
+  if parts.length != n || parts.any (fun p => p ≥ 1024) then none
   pure { n, threads, imb, g, w, parts }
 
 /-- `W::from_f64(x)` for `W = i64` (truncation; `None` → panic outside the range). -/
@@ -116,8 +120,27 @@ def traceStr (passes : List (List (Nat × Event))) : String :=
 `part_weights[p]` can take in a run (`0 ..= total weight`: the tracked weights are the true
 loads, `Inv2.loadAcct`), so the model's `thread_max_pws` are the code's at every pass. -/
 def floatOk (c : Cfg) (total : Nat) : Bool :=
-  (List.range (total + 1)).all fun x =>
-    floatShare c.maxPw x c.threadCount == some ((x : Int) + Int.tdiv (c.maxPw - x) c.threadCount)
+  if total ≤ 400000 then
+    (List.range (total + 1)).all fun x =>
+      floatShare c.maxPw x c.threadCount == some ((x : Int) + Int.tdiv (c.maxPw - x) c.threadCount)
+  else
+    -- too many values to enumerate: a-priori bound instead.  |max_pw - pw| < 2^47 and at most 8
+    -- tasks: the quotient has at least 6 fractional bits in f64, its fractional part is a multiple
+    -- of 1/T ≥ 1/8, so rounding cannot reach the next integer and truncation agrees with `tdiv`.
+    total < 17592186044416 && c.threadCount ≤ 8 && c.maxPw.natAbs < 87960930222080
+
+/-- Sequential instance (one worker): `ok ids=… md=…`. -/
+def seqLine (i : Inst) : String :=
+  let pc := partCountOf i.parts
+  match maxPwOf i pc with
+  | none => "panic"
+  | some maxPw =>
+    let c := mkCfg i.g i.w i.parts maxPw 1
+    if !floatOk c i.w.sum.toNat then "skip float-division-differs" else
+    match runSeq i.g i.w i.parts maxPw 1 1000000000 100000 with
+    | .ok ids md => "ok ids=" ++ idsStr ids ++ " md=" ++ mdStr md
+    | .panic => "panic"
+    | .fuel => "fuel"
 
 def handle (toks : List String) : String :=
   let secs := sections toks
@@ -125,7 +148,7 @@ def handle (toks : List String) : String :=
   let body := secs.tail
   match head with
   | ["ctl", n, threads, imb] =>
-    match parseInst n threads imb body 64, (body.drop 5).mapM (parseAll parseNat?) with
+    match parseInst n threads imb body 512, (body.drop 5).mapM (parseAll parseNat?) with
     | some i, some scheds =>
       let pc := partCountOf i.parts
       match maxPwOf i pc with
@@ -142,19 +165,24 @@ def handle (toks : List String) : String :=
     | _, _ => "bad-op"
   | ["seq", n, imb] =>
     if body.length != 5 then "bad-op" else
-    match parseInst n "1" imb body 64 with
-    | some i =>
-      let pc := partCountOf i.parts
-      match maxPwOf i pc with
-      | none => "panic"
-      | some maxPw =>
-        let c := mkCfg i.g i.w i.parts maxPw 1
-        if !floatOk c i.w.sum.toNat then "skip float-division-differs" else
-        match runSeq i.g i.w i.parts maxPw 1 1000000 10000 with
-        | .ok ids md => "ok ids=" ++ idsStr ids ++ " md=" ++ mdStr md
-        | .panic => "panic"
-        | .fuel => "fuel"
+    match parseInst n "1" imb body 20001 with
+    | some i => seqLine i
     | none => "bad-op"
+  | ["reuse", na, nb, imb] =>
+    -- the same `ArcSwap` value used for A then B: the model has no state, the answer is B's
+    if body.length != 10 then "bad-op" else
+    match parseInst na "1" imb (body.take 5) 4096, parseInst nb "1" imb (body.drop 5) 4096 with
+    | some _, some i => seqLine i
+    | _, _ => "bad-op"
+  | ["gfree", n, threads, imb, shape, rowlen, seed, k, pshape, wmode] =>
+    if !body.isEmpty then "bad-op" else
+    match parseNat? n, parseNat? threads, parseImb imb, parseNat? rowlen, parseNat? seed, parseNat? k,
+      parseNat? pshape, parseNat? wmode with
+    | some n, some t, some _, some r, some sd, some k, some ps, some wm =>
+      if n < 1 || n > 200000 || t < 1 || t > 16 || !(shape == "grid" || shape == "rand4") || k < 1 || k > 4096
+          || r > 1000000 || ps > 5 || wm > 3 || sd ≥ 18446744073709551616 then "bad-op"
+      else "skip large-n (oracle only)"
+    | _, _, _, _, _, _, _, _ => "bad-op"
   | ["free", n, threads, imb] =>
     if body.length != 5 then "bad-op" else
     match parseInst n threads imb body 4096 with
